@@ -18,7 +18,7 @@
 //!     <id> arms <every call `g_actions::f(args)` of the generated g.rs in file order, joined by ';'>
 //!
 //! Canonical items (no blanks): `T:Name=Type`, `S:Name{field:Type,...}`, `E:Name{Variant(Type),Variant,...}`,
-//! `F:name(param:Type,...)->Type` (the leading `_ctx: &Ctx` parameter is dropped). The header items
+//! `F:name(param:Type,...)->Type` (the leading `_ctx: &Ctx` parameter is dropped; `mut param` for a `mut` binding). The header items
 //! `Input`, `Ctx`, `Token` are skipped.
 use std::{fs, io::Write, panic, path::PathBuf};
 
@@ -118,13 +118,14 @@ fn skeleton(path: &std::path::Path) -> Option<String> {
                 let mut ps: Vec<String> = vec![];
                 for (i, a) in f.sig.inputs.iter().enumerate() {
                     if let syn::FnArg::Typed(p) = a {
-                        let name = match &*p.pat {
-                            syn::Pat::Ident(pi) => pi.ident.to_string(),
-                            _ => "_".to_string(),
+                        let (name, mutable) = match &*p.pat {
+                            syn::Pat::Ident(pi) => (pi.ident.to_string(), pi.mutability.is_some()),
+                            _ => ("_".to_string(), false),
                         };
                         if i == 0 && name == "_ctx" {
                             continue;
                         }
+                        let name = if mutable { format!("mut {name}") } else { name };
                         ps.push(format!("{}:{}", name, ty(&p.ty)));
                     }
                 }
